@@ -38,6 +38,8 @@ def _build(dn, on, depth, tag):
             subparent = subparent.new_space("T")
         S = subparent.new_space("Sub" if depth <= 2 else dn, bases=D)
         S.formula = "lambda n: None"         # parameters are not inherited
+        Q = m.new_space("Q", formula="lambda n: {'base': SubRef}")     # a parametric space whose instances are built from Sub
+        Q.SubRef = S
         return m, D, O, S
 
 
@@ -75,7 +77,7 @@ def _observe(m, D, O, S, place, mode, what):
     if unspecified:
         derivers = (("D[1]", D),)
     else:
-        derivers = (("D[1]", D), ("Sub[1]", S))
+        derivers = (("D[1]", D), ("Sub[1]", S), ("Q[1] (instance of another space built from Sub)", m.Q))
     r = call(lambda: S.r) if not unspecified else ("ok", None)
     if not check(r[0] == "ok", "Sub.r readable (%s)" % what, lambda: r):
         return False
@@ -229,12 +231,14 @@ def descendant_holder(mode: int, holder: int, tgt: int, nm: int, follow: int) ->
 def definer_change(m1: int, m2: int, tgt: int, how: int) -> bool:
     """Chain Z <- A <- B.  Z defines r (mode m1); A overrides it (mode m2, absolute target) and the override is removed again, or
     Z re-assigns r with another mode: A's and B's derived r must afterwards be what derivation from Z alone gives."""
-    m1, m2, tgt, how = pick(m1, 0, 2), pick(m2, 0, 2), pick(tgt, 0, 1), pick(how, 0, 1)
-    label("Z.r mode=%s target=%s; %s with mode=%s" % (MODES[m1], ("Z.foo", "Z itself")[tgt], ("A overrides then deletes", "Z re-assigns")[how], MODES[m2]))
+    m1, m2, tgt, how = pick(m1, 0, 2), pick(m2, 0, 2), pick(tgt, 0, 1), pick(how, 0, 2)
+    label("Z.r mode=%s target=%s; %s with mode=%s" % (MODES[m1], ("Z.foo", "Z itself")[tgt], ("A overrides then deletes", "Z re-assigns", "Z re-assigns while a sibling sub space Ov overrides r")[how], MODES[m2]))
     with notrace():
         m = new_model("DC")
         Z = m.new_space("Z")
         Z.new_cells("foo", formula="lambda: 1")
+        Z.new_cells("bar", formula="lambda: 2")
+        Ov = m.new_space("Ov", bases=Z) if how == 2 else None      # created first: it precedes A and B among Z's sub spaces
         A = m.new_space("A", bases=Z)
         B = m.new_space("B", bases=A)
         target = (Z.foo, Z)[tgt]
@@ -250,10 +254,19 @@ def definer_change(m1: int, m2: int, tgt: int, how: int) -> bool:
         if not check(c[0] == "ok", "deleting the override raised", lambda: c):
             return False
     else:
+        if how == 2:
+            c = call(Ov.set_ref, "r", Ov.bar, "auto")
+            if not check(c[0] == "ok", "overriding in the sibling raised", lambda: c):
+                return False
         c = call(Z.set_ref, "r", target, MODES[m2])
         if c[0] == "err":
             return True
         final_mode = MODES[m2]
+        if how == 2:
+            with notrace():
+                keeps = Ov.r is Ov.bar
+            if not check(keeps, "the overriding sibling keeps its own reference"):
+                return False
     for sp in (A, B):
         rr = call(lambda: sp.r)
         if not check(rr[0] == "ok", "derived reference readable", lambda: rr):
@@ -320,7 +333,7 @@ QUERIES = [
           if tier == "quick" else [dict(mode=mo, nm=n, follow=f) for mo in range(3) for n in range(3) for f in range(5)],
           natives=[dict(mode=mo, place=p, nm=n, depth=d, follow=f) for (mo, p, n, d, f) in
                    ((0, 0, 2, 1, 0), (0, 1, 0, 1, 1), (0, 5, 0, 1, 0), (0, 4, 1, 2, 2), (1, 1, 2, 2, 3), (1, 4, 2, 1, 0), (2, 0, 0, 1, 1), (2, 3, 1, 2, 3), (0, 3, 2, 1, 3), (0, 2, 0, 2, 0), (1, 3, 1, 1, 2), (0, 0, 2, 3, 0), (0, 1, 0, 4, 0), (1, 1, 2, 3, 3), (0, 1, 2, 1, 4), (2, 0, 2, 1, 4), (1, 1, 2, 2, 4), (0, 0, 1, 4, 2))],
-          bounds=lambda tier: {"modes": MODES, "placements": PLACES, "names": NAMES, "definer_depth": [1, 2, "2 with a same-named deriver at model level", "2 with the deriver's path ending like the definer's"], "derivers": ["static sub space", "ItemSpace of definer", "ItemSpace of the sub space"],
+          bounds=lambda tier: {"modes": MODES, "placements": PLACES, "names": NAMES, "definer_depth": [1, 2, "2 with a same-named deriver at model level", "2 with the deriver's path ending like the definer's"], "derivers": ["static sub space", "ItemSpace of definer", "ItemSpace of the sub space", "ItemSpace of another parametric space whose formula returns the sub space as base"],
                                "follow_up": FOLLOW},
           outside=["descendant targets under static derivation (child spaces are not inherited; unspecified)", "ItemSpaces nested in ItemSpaces", "more than one follow-up operation"]),
 ]
@@ -332,10 +345,10 @@ QUERIES.append(
           bounds=lambda tier: {"holders": HOLDERS, "targets": HTARGETS, "modes": MODES, "instances": "D[1], D[2]", "follow_up": ["none", "write and read"]},
           outside=["static derivation of references held by child spaces (child spaces are not inherited)"]))
 QUERIES.append(
-    Query("definer_change", definer_change, pre=["0 <= m1 < 3", "0 <= m2 < 3", "0 <= tgt < 2", "0 <= how < 2"],
-          partitions=lambda tier, seed: [dict(how=h) for h in (0, 1)],
-          natives=[dict(m1=a, m2=b, tgt=t, how=h) for (a, b, t, h) in ((0, 2, 0, 0), (2, 0, 1, 0), (0, 2, 0, 1), (1, 2, 1, 1), (2, 1, 0, 1), (0, 0, 1, 0))],
-          bounds=lambda tier: {"chain": "Z <- A <- B", "modes": MODES, "targets": ["cells of the definer", "the definer"], "change": ["override in A then delete it", "re-assignment in Z with another mode"]},
+    Query("definer_change", definer_change, pre=["0 <= m1 < 3", "0 <= m2 < 3", "0 <= tgt < 2", "0 <= how < 3"],
+          partitions=lambda tier, seed: [dict(how=h) for h in (0, 1, 2)],
+          natives=[dict(m1=a, m2=b, tgt=t, how=h) for (a, b, t, h) in ((0, 2, 0, 0), (2, 0, 1, 0), (0, 2, 0, 1), (1, 2, 1, 1), (2, 1, 0, 1), (0, 0, 1, 0), (0, 2, 0, 2), (2, 0, 1, 2), (0, 0, 0, 2))],
+          bounds=lambda tier: {"chain": "Z <- A <- B", "modes": MODES, "targets": ["cells of the definer", "the definer"], "change": ["override in A then delete it", "re-assignment in Z with another mode", "the same while a sibling sub space created earlier overrides the reference"]},
           outside=["deeper chains"]))
 QUERIES.append(
     Query("override_target", override_target, pre=["0 <= mode < 3", "1 <= depth <= 2", "0 <= what <= 1"],
